@@ -74,6 +74,8 @@ class FakeWriter:
         if self.fail_write:
             self.lost_exc = ConnectionResetError("simulated write error")
             raise self.lost_exc
+        if self.fail_drain:
+            return      # buffered, never delivered: the drain that follows reports the loss
         self.chunks.append(bytes(data))
 
     async def drain(self):
